@@ -166,11 +166,11 @@ mutant("c19_low_bound_inclusive", "C19", "samplers/gibbs.py",
        "                mean_acceptation <= self._mean_acceptation_lower_bound_before_adaptation + 0.15")
 
 # ----------------------------------------------------------------------------- C09
-mutant("c09_plus_tau", "C09", "models/time_reparametrized.py",
-       "        return alpha * (t - tau)", "        return alpha * (t + tau - 2 * tau.detach().mean())")
+mutant("c09_missing_parentheses", "C09", "models/time_reparametrized.py",
+       "        return alpha * (t - tau)", "        return alpha * t - tau")
 mutant("c09_metric_missing", "C09", "models/logistic.py",
-       "            metric[pop_s] * (v0[pop_s] * rt + space_shifts[:, None, ...])",
-       "            (metric[pop_s] * v0[pop_s] * rt + space_shifts[:, None, ...])")
+       "        w_model_logit = metric[pop_s] * (\n            v0[pop_s] * rt + space_shifts[:, None, ...]\n        ) - torch.log(g[pop_s])",
+       "        w_model_logit = (\n            metric[pop_s] * v0[pop_s] * rt + space_shifts[:, None, ...]\n        ) - torch.log(g[pop_s])")
 mutant("c09_sorted_ages", "C09", "models/base.py",
        "                subj_id: tpts.values\n", "                subj_id: np.sort(tpts.values)\n")
 mutant("c09_join_multiplies_duplicates", "C09", "models/base.py",
@@ -221,8 +221,8 @@ mutant("c07_results_zipped_with_sorted_ids", "C07", "algo/personalize/scipy_mini
 mutant("c07_one_state_shared_between_jobs", "C07", "algo/personalize/scipy_minimize.py",
        "            states[idx] = state.clone(disable_auto_fork=True)\n", "            states[idx] = state.clone(disable_auto_fork=True) if not states else next(iter(states.values()))\n")
 mutant("c07_set_ordered_sum", "C07", "variables/specs.py",
-       "        self._latent_pop_vars = {}\n        self._latent_ind_vars = {}", "        self._latent_pop_vars = {}\n        self._latent_ind_vars = set()", tier="thorough",
-       also=())
+       "                        for ind_var_name in self._latent_ind_vars\n",
+       "                        for ind_var_name in set(self._latent_ind_vars)\n", tier="quick")
 # ----------------------------------------------------------------------------- C11
 mutant("c11_numpy_not_seeded", "C11", "algo/base.py", "            np.random.seed(seed)\n", "")
 mutant("c11_torch_not_seeded", "C11", "algo/base.py", "            torch.manual_seed(seed)\n", "")
@@ -231,7 +231,8 @@ mutant("c11_logger_consumes_a_draw", "C11", "algo/fit/fit_output_manager.py",
 mutant("c11_print_only_logging_crashes", "C11", "algo/fit/fit_output_manager.py",
        "        self.path_output = None  # no output folder (console logs only)\n", "")
 mutant("c11_set_ordered_sum", "C11", "variables/specs.py",
-       "        self._latent_pop_vars = {}\n        self._latent_ind_vars = {}", "        self._latent_pop_vars = {}\n        self._latent_ind_vars = set()")
+       "                        for ind_var_name in self._latent_ind_vars\n",
+       "                        for ind_var_name in set(self._latent_ind_vars)\n")
 # ----------------------------------------------------------------------------- C17
 mutant("c17_burn_in_draws_kept", "C17", "algo/personalize/mcmc.py",
        "                if not self._is_burn_in():", "                if True:")
@@ -246,7 +247,8 @@ mutant("c17_mean_over_all_but_first", "C17", "algo/personalize/mean_posterior.py
 mutant("c18_duplicates_kept", "C18", "algo/simulate/simulate.py",
        "        df_sim = df_sim[~df_sim.index.duplicated()]\n", "")
 mutant("c18_rounding_precision_off_by_one", "C18", "algo/simulate/simulate.py",
-       "        rounding_options = {0: 1, 1: 0.1, 2: 0.01, 3: 0.001}", "        rounding_options = {0: 10, 1: 1, 2: 0.1, 3: 0.01}")
+       "            if val <= min_spacing_between_visits:\n                rounding_precision = precision",
+       "            if val <= min_spacing_between_visits:\n                rounding_precision = max(precision - 1, 0)")
 mutant("c18_mean_and_std_validation", "C18", "algo/simulate/simulate.py",
        "            if self.param_study[\"distance_visit_mean\"] <= 0:", "            if self.param_study[\"distance_visit_mean\"] <= 0 and self.param_study[\"distance_visit_std\"] <= 0:")
 mutant("c18_ids_start_at_one", "C18", "algo/simulate/simulate.py",
